@@ -145,7 +145,7 @@ class C02(Campaign):
                          p_action=0.7 if dense else 0.25, p_state_action=0.6 if dense else 0.2,
                          p_conv=0.5 if dense else 0.15, p_validator=0.3, p_internal=0.2, p_self=0.25,
                          p_multi_event=0.4, p_unknown_event=0.05, p_multi_group_name=0.3,
-                         p_attach_style=0.35)
+                         p_attach_style=0.35, p_awaitable=0.2)
 
     def nontrivial(self, sc, ev):
         groups = 0
